@@ -29,6 +29,8 @@ type freshCtx struct {
 	busy  map[types.Object]bool
 	depth int
 	used  map[string]bool // assumptions used (A-CODEC-FRESH ...)
+	field string          // non-empty: only this field of the (struct) result is claimed
+	pc    *PkgContracts
 	spine bool            // freshspine: only the returned container (slice/map backing store) must be new, its elements may alias
 	why   string
 }
@@ -84,8 +86,8 @@ func (c *freshCtx) typeOf(e ast.Expr) types.Type {
 }
 
 // freshResult decides the `fresh rK` obligation of decl.
-func (E *Engine) freshResult(p *packages.Package, decl *ast.FuncDecl, k int, spine bool) (bool, string, []string) {
-	c := &freshCtx{E: E, p: p, info: p.TypesInfo, decl: decl, param: map[types.Object]bool{}, busy: map[types.Object]bool{}, used: map[string]bool{}, spine: spine}
+func (E *Engine) freshResult(p *packages.Package, pc *PkgContracts, decl *ast.FuncDecl, k int, spine bool, field string) (bool, string, []string) {
+	c := &freshCtx{E: E, p: p, pc: pc, info: p.TypesInfo, decl: decl, param: map[types.Object]bool{}, busy: map[types.Object]bool{}, used: map[string]bool{}, spine: spine, field: field}
 	ok := c.funcFresh(decl, k)
 	var used []string
 	for u := range c.used {
@@ -145,7 +147,7 @@ func (c *freshCtx) funcFresh(decl *ast.FuncDecl, k int) bool {
 				ok = c.call(call, k)
 			}
 		case k < len(r.Results):
-			ok = c.expr(r.Results[k])
+			ok = c.resultExpr(r.Results[k])
 		default:
 			ok = c.fail("result index out of range")
 		}
@@ -155,6 +157,24 @@ func (c *freshCtx) funcFresh(decl *ast.FuncDecl, k int) bool {
 		return c.fail("no return statement")
 	}
 	return ok
+}
+
+// resultExpr: the returned expression, or only the claimed field of it.
+func (c *freshCtx) resultExpr(e ast.Expr) bool {
+	if c.field == "" || c.depth > 0 {
+		return c.expr(e)
+	}
+	if cl, ok := ast.Unparen(e).(*ast.CompositeLit); ok {
+		for _, el := range cl.Elts {
+			if kv, ok := el.(*ast.KeyValueExpr); ok {
+				if id, ok := kv.Key.(*ast.Ident); ok && id.Name == c.field {
+					return c.expr(kv.Value)
+				}
+			}
+		}
+		return true // field not set: zero value
+	}
+	return c.fail("fresh r.%s: the result must be returned as a composite literal (got %s)", c.field, exprStr(e))
 }
 
 func (c *freshCtx) resultCount(decl *ast.FuncDecl) int {
@@ -205,7 +225,7 @@ func (c *freshCtx) expr(e ast.Expr) bool {
 		return true
 	case *ast.UnaryExpr:
 		if x.Op == token.AND {
-			return c.expr(x.X) // &T{...} or &local: a new object holding a fresh value
+			return c.addr(x.X)
 		}
 		return c.expr(x.X)
 	case *ast.StarExpr:
@@ -258,6 +278,63 @@ func (c *freshCtx) expr(e ast.Expr) bool {
 		return c.localFresh(o)
 	}
 	return c.fail("unsupported expression %s", exprStr(e))
+}
+
+// addr: &X. A composite literal or a local variable is a new object (fresh iff what it holds is); the address of
+// an element, field or pointee is a pointer INTO an existing object and is fresh only if that object is.
+func (c *freshCtx) addr(x ast.Expr) bool {
+	x = ast.Unparen(x)
+	switch y := x.(type) {
+	case *ast.CompositeLit:
+		return c.expr(y)
+	case *ast.Ident:
+		return c.expr(y)
+	case *ast.IndexExpr:
+		switch c.typeOf(y.X).Underlying().(type) {
+		case *types.Slice, *types.Map, *types.Pointer:
+			return c.container(y.X) // element of shared storage unless the container itself is fresh
+		}
+		return c.addr(y.X) // array value: part of its holder
+	case *ast.SelectorExpr:
+		if sel, ok := c.info.Selections[y]; ok && sel.Kind() == types.FieldVal {
+			if sel.Indirect() {
+				return c.container(y.X)
+			}
+			return c.addr(y.X)
+		}
+		return c.fail("address of %s", exprStr(x))
+	case *ast.StarExpr:
+		return c.container(y.X)
+	}
+	return c.fail("address of %s", exprStr(x))
+}
+
+// container: the slice / map / pointer expression denotes storage created by this call (no pointer-free shortcut:
+// the question is about the storage, not about the values in it).
+func (c *freshCtx) container(e ast.Expr) bool {
+	e = ast.Unparen(e)
+	if y, ok := e.(*ast.Ident); ok {
+		o := c.info.ObjectOf(y)
+		if v, ok := o.(*types.Var); ok {
+			if fresh, isParam := c.param[o]; isParam {
+				if fresh {
+					return true
+				}
+				return c.fail("points into storage of parameter %s", y.Name)
+			}
+			if c.isParamOf(o) || v.Parent() == c.p.Types.Scope() {
+				return c.fail("points into storage of %s", y.Name)
+			}
+			return c.localFresh(o)
+		}
+		return c.fail("points into %s", y.Name)
+	}
+	if y, ok := e.(*ast.SelectorExpr); ok {
+		if sel, ok := c.info.Selections[y]; ok && sel.Kind() == types.FieldVal && sel.Indirect() {
+			return c.container(y.X)
+		}
+	}
+	return c.expr(e)
 }
 
 func (c *freshCtx) isParamOf(o types.Object) bool {
@@ -576,6 +653,10 @@ func (c *freshCtx) call(call *ast.CallExpr, k int) bool {
 			}
 			return c.fail("builtin %s", id.Name)
 		}
+	}
+	if c.pc != nil && c.pc.FreshCalls[exprStr(call.Fun)] {
+		c.used["results of "+exprStr(call.Fun)+" are newly decoded objects (declared with freshcalls)"] = true
+		return true
 	}
 	fn := c.callee(call)
 	if fn == nil {
